@@ -14,7 +14,8 @@ TRUSTED_BASE = [
     "partial: reachability of the final step (no exception in seeding / DBA updates) is correspondence only",
 ]
 ASSUMPTIONS = ["distances of series to the returned means are recomputed with the same engine's single-pair routine"]
-RULE = ("data sets (n 3..9 series, ndim 1..2, duplicates allowed, equal length) x k < n x seed x initialisation "
+RULE = ("data sets (n 3..9 random series, or 10..16 series planted as tight groups plus outliers with drop_stddev and "
+        "enough iterations to converge; ndim 1..2, duplicates allowed, equal length) x k < n x seed x initialisation "
         "(k-means++ / random / sample size) x drop_stddev x window/penalty x use_c x serial/parallel: exactly k sets "
         "keyed 0..k-1 partitioning all indices, k means, every series in the cluster of a nearest mean (first minimum), "
         "performed iterations <= max_it + 1, inputs untouched")
@@ -35,10 +36,29 @@ def gen_cases(rng, tier):
             else:
                 series.append(dtwgen.rand_series(rng, L, nd, lo=-3, hi=3))
         k = rng.randint(1, ns - 1)
+        planted = rng.random() < 0.3
+        if planted:
+            # tight groups plus a few outliers, enough iterations to converge: the regime in which drop_stddev trims
+            # series from the masks and the loop ends through "no change in cluster assignment"
+            k = rng.randint(2, 3)
+            ns = rng.randint(10, 16)
+            bases = [dtwgen.rand_series(rng, L, nd, lo=-3, hi=3) for _ in range(k)]
+            series = []
+            for j in range(ns):
+                b = bases[j % k]
+                v = [list(p) if isinstance(p, list) else p for p in b]
+                pos = rng.randrange(L)
+                bump = rng.choice([0, 0, 1, -1]) if j < ns - 2 else rng.choice([5, 7, -6])
+                if nd == 1:
+                    v[pos] = v[pos] + bump
+                else:
+                    v[pos][0] = v[pos][0] + bump
+                series.append(v)
         init = rng.choice(["kmeanspp", "kmeanspp", "random", "sample"])
         cases.append({"site": "kmeans", "series": series, "ndim": nd, "k": k, "seed": rng.randint(0, 10 ** 6),
                       "init": init, "sample_size": rng.randint(1, 3) if init == "sample" else None,
-                      "drop_stddev": rng.choice([None, None, 1, 2]), "max_it": rng.randint(1, 5),
+                      "drop_stddev": rng.choice([1, 2, 1, 2, None]) if planted else rng.choice([None, None, 1, 2]),
+                      "max_it": rng.randint(4, 10) if planted else rng.randint(1, 5),
                       "window": rng.choice([None, 2]), "penalty": rng.choice([None, 1]),
                       "use_c": rng.random() < 0.5, "parallel": rng.random() < 0.05})
     return cases
